@@ -497,6 +497,65 @@ def pool_x():
     return terms, pairs
 
 
+def pool_f():
+    """fungibility pool (C09): families of types around each IsFungible rule; all ordered pairs
+    within a family plus random cross-family pairs"""
+    rng = random.Random(20261002)
+    E = ('enum', 2, 'i32')
+    S1 = ('struct', [I('u8'), STR])
+    S1b = ('struct', [('wrap', I('u8')), STR])
+    fams = [
+        # integral sequences (BINARY container)
+        [vec(I('i32')), arr(3, I('i32')), arr(2, I('i32')), ('struct', [carr(3, I('i32'))]), ('struct', [lbuf(3, 'u8', I('i32'))]),
+         ('struct', [lbuf(3, 'u64', I('i32'), 'carray')]), ('struct', [lbuf(6, 'i16', I('i32'))]), ('tuple', [I('i32'), I('i32'), I('i32')]),
+         vec(I('u32')), vec(E), arr(3, E), ('tuple', [E, E, E]), ('pair', I('i32'), I('i32')),
+         ('struct', [vec(I('i32'))]), ('struct', [arr(3, I('i32'))]), ('struct', [lbuf(3, 'u8', E)]), ('struct', [vec(E)]),
+         ('tuple', [I('i32'), ('wrap', I('i32')), I('i32')]), ('tuple', [('wrap', I('i32'))]), vec(('wrap', I('i32'))),
+         ('tuple', [('wrap', I('i32')), ('wrap', ('wrap', I('i32'))), ('wrap', I('i32'))])],
+        # floating point sequences: ARRAY container everywhere
+        [vec(('f32',)), arr(3, ('f32',)), ('struct', [lbuf(3, 'u8', ('f32',))]), ('struct', [vec(('f32',))]), ('struct', [arr(3, ('f32',))]),
+         ('tuple', [('f32',), ('f32',), ('f32',)]), vec(('f64',)), ('struct', [lbuf(3, 'u16', ('f64',), 'carray')]), ('struct', [vec(('f64',))]),
+         ('struct', [lbuf(2, 'i8', ('bool',))]), ('struct', [vec(('char',))]), ('struct', [lbuf(4, 'u8', ('char',))])],
+        # non-integral sequences (ARRAY container) and tuples
+        [vec(STR), arr(2, STR), arr(3, STR), ('tuple', [STR, STR]), ('pair', STR, STR), ('tuple', [STR, STR, STR]), ('tuple', []),
+         ('struct', [STR, STR]), ('struct', [carr(2, STR)]), ('struct', [lbuf(2, 'u8', STR)]), vec(('wrap', STR)), ('tuple', [('wrap', STR), STR])],
+        # nested sequences, maps
+        [vec(vec(I('u8'))), vec(arr(2, I('u8'))), arr(2, vec(I('u8'))), ('tuple', [vec(I('u8')), arr(2, I('u8'))]),
+         ('map', True, I('u8'), STR), ('map', False, I('u8'), STR), ('map', True, I('u8'), ('wrap', STR)), ('map', True, I('u16'), STR)],
+        # scalars and wrappers
+        [I('u8'), ('wrap', I('u8')), ('wrap', ('wrap', I('u8'))), ('char',), ('bool',), I('i8'), ('enum', 1, 'u8'), ('enum', 3, 'u8'),
+         ('f32',), ('f64',), STR, ('str', 1, 2), ('wrap', STR)],
+        # optional / result / variant
+        [('opt', I('u8')), ('opt', ('wrap', I('u8'))), ('opt', I('i8')), ('opt', vec(STR)), ('opt', arr(2, STR)),
+         ('result', 2, 'i32', I('u8')), ('result', 2, 'i32', ('wrap', I('u8'))), ('result', 1, 'u8', I('u8')),
+         ('variant', [I('u8'), STR]), ('variant', [('wrap', I('u8')), STR]), ('variant', [I('u8')]), ('variant', [STR, I('u8')]),
+         ('variant', [vec(I('i16')), ('pair', STR, STR)]), ('variant', [arr(2, I('i16')), ('tuple', [STR, STR])])],
+        # structures and tables
+        [S1, S1b, ('struct', [I('u8'), STR, I('u8')]), ('struct', [STR, I('u8')]), ('tuple', [I('u8'), STR]),
+         ('struct', [S1, vec(S1)]), ('struct', [S1b, arr(2, S1)]),
+         ('table', 5, [(1, 'a', I('u8')), (2, 'a', vec(STR))]), ('table', 5, [(1, 'a', ('wrap', I('u8'))), (2, 'a', arr(2, STR))]),
+         ('table', 6, [(1, 'a', I('u8')), (2, 'a', vec(STR))]), ('table', 5, [(1, 'a', I('u8')), (3, 'a', vec(STR))]),
+         ('table', 5, [(1, 'a', I('u8')), (2, 'd', vec(STR))]), ('table', 5, [(2, 'a', vec(STR)), (1, 'a', I('u8'))]),
+         ('table', 5, [(1, 'a', I('u8'))])],
+    ]
+    terms, pairs = [], []
+    ranges = []
+    for fam in fams:
+        base = len(terms)
+        terms += fam
+        ranges.append((base, len(fam)))
+        for a in range(len(fam)):
+            for b in range(len(fam)):
+                pairs.append((base + a, base + b, 'family'))
+    seen = {(a, b) for (a, b, _) in pairs}
+    n = 0
+    while n < 120:
+        a, b = rng.randrange(len(terms)), rng.randrange(len(terms))
+        if (a, b) not in seen:
+            seen.add((a, b)); pairs.append((a, b, 'cross')); n += 1
+    return terms, pairs
+
+
 if __name__ == '__main__':
     import sys
     name, out = sys.argv[1], sys.argv[2]
@@ -504,12 +563,14 @@ if __name__ == '__main__':
         terms = pool_a() + pool_random(20260929, 20)
     elif name == 'h':
         terms = pool_h()
-    elif name == 'x':
+    elif name in ('x', 'f'):
         terms = []
     else:
         terms = pool_random(int(sys.argv[3]), int(sys.argv[4]))
     pairs = None
     if name == 'x':
         terms, pairs = pool_x()
+    if name == 'f':
+        terms, pairs = pool_f()
     es = emit_header(name, terms, out, pairs)
     print('%d types' % len(es))
